@@ -70,13 +70,18 @@ type hGenesis struct {
 	ExtraSigning int   `json:"extra_signing,omitempty"`
 	KeepRecent   int64 `json:"keep_recent"`
 	KeepEvery    int64 `json:"keep_every"`
+	// module accounts are not created at genesis but on first use (C02 only)
+	LazyModules bool `json:"lazy_modules,omitempty"`
+	// Anchor-1 is the key index of a validator that is never reported absent or accused (0 = none)
+	Anchor int `json:"anchor,omitempty"`
 }
 
 type hEvidence struct {
-	Val       int   `json:"val"`        // index (mod) into the sorted list of all validators ever in Tendermint's set; -1 unknown address
-	HeightAgo int64 `json:"height_ago"` // infraction height = current - 1 - HeightAgo (clamped to >= 1)
-	AgeSec    int64 `json:"age_sec"`    // evidence timestamp = block time - AgeSec
-	PowerMode int   `json:"power_mode"` // 0 power at infraction height, 1 +1, 2 zero, 3 half
+	Val       int   `json:"val"`              // index (mod) into the sorted list of all validators ever in Tendermint's set; -1 unknown address
+	ByKey     bool  `json:"by_key,omitempty"` // Val is a key-pool index instead (skipped when that key never was in the set)
+	HeightAgo int64 `json:"height_ago"`       // infraction height = current - 1 - HeightAgo (clamped to >= 1)
+	AgeSec    int64 `json:"age_sec"`          // evidence timestamp = block time - AgeSec
+	PowerMode int   `json:"power_mode"`       // 0 power at infraction height, 1 +1, 2 zero, 3 half
 }
 
 type hTx struct {
@@ -105,14 +110,15 @@ type hQuery struct {
 }
 
 type hBlock struct {
-	DTSec    int64       `json:"dt_sec"`
-	DTNano   int64       `json:"dt_nano,omitempty"`
-	Proposer int         `json:"proposer"` // index (mod) into the current Tendermint set; -1 unknown address; -2 pool key 9
-	Missed   []int       `json:"missed,omitempty"`
-	Evidence []hEvidence `json:"evidence,omitempty"`
-	Txs      []hTx       `json:"txs,omitempty"`
-	Queries  []hQuery    `json:"queries,omitempty"` // issued after the txs (read-only traffic)
-	Restart  bool        `json:"restart,omitempty"`
+	DTSec      int64       `json:"dt_sec"`
+	DTNano     int64       `json:"dt_nano,omitempty"`
+	Proposer   int         `json:"proposer"` // index (mod) into the current Tendermint set; -1 unknown address; -2 pool key 9
+	Missed     []int       `json:"missed,omitempty"`
+	MissedKeys []int       `json:"missed_keys,omitempty"` // key-pool indices whose validators (if in the last set) did not sign
+	Evidence   []hEvidence `json:"evidence,omitempty"`
+	Txs        []hTx       `json:"txs,omitempty"`
+	Queries    []hQuery    `json:"queries,omitempty"` // issued after the txs (read-only traffic)
+	Restart    bool        `json:"restart,omitempty"`
 }
 
 type hProg struct {
@@ -136,7 +142,7 @@ var simGenesisTime = time.Date(2020, 1, 1, 0, 0, 0, 0, time.UTC)
 // built from ordered inputs (never from map iteration).
 func buildGenesis(g *hGenesis, pool []simKey) (*simGenesis, error) {
 	simInit()
-	sg := &simGenesis{}
+	sg := &simGenesis{LazyModules: g.LazyModules}
 	dec := func(s string) (sdk.Dec, error) {
 		d, err := sdk.NewDecFromStr(s)
 		if err != nil {
@@ -336,6 +342,7 @@ type chain struct {
 	blockTxs  [][]byte
 	applyErr  string // why Tendermint would have refused the last batch ("" = fine)
 	emptied   bool
+	lastView  *chainView
 	c         *Case
 	noViews   bool
 	// twin mode (C01): every transaction is delivered; its Mode and the block's queries describe extra
@@ -367,6 +374,14 @@ func newChain(p *hProg, c *Case) (*chain, *Violation) {
 	return ch, nil
 }
 
+// anchorAddr: hex address of the anchor validator ("" when the history has none)
+func (ch *chain) anchorAddr() string {
+	if ch.p.Gen.Anchor <= 0 {
+		return ""
+	}
+	return hex.EncodeToString(ch.pool[mod(ch.p.Gen.Anchor-1, len(ch.pool))].Addr)
+}
+
 func safeCall(f func()) (pv interface{}) {
 	defer func() {
 		if r := recover(); r != nil {
@@ -384,12 +399,28 @@ func (ch *chain) view() *chainView {
 	return ch.app.view()
 }
 
+// takeBefore: the state before a call is the state after the previous one (nothing runs in between), so the
+// view computed there is reused once; it is dropped before the call executes.
+func (ch *chain) takeBefore() *chainView {
+	v := ch.lastView
+	ch.lastView = nil
+	if v == nil {
+		v = ch.view()
+	}
+	return v
+}
+
+func (ch *chain) viewAfter() *chainView {
+	ch.lastView = ch.view()
+	return ch.lastView
+}
+
 // run executes the program; the oracle sees every call. A panic escaping an ABCI call ends the
 // case after the oracle has seen it.
 func (ch *chain) run(o chainOracle) *Violation {
 	// InitChain
 	ci := &callInfo{Kind: "initchain", Time: ch.now}
-	ci.Before = ch.view()
+	ci.Before = ch.takeBefore()
 	ci.Panic = safeCall(func() {
 		ci.Init = ch.app.InitChain(abci.RequestInitChain{ChainId: simChainID, Time: ch.now,
 			ConsensusParams: &abci.ConsensusParams{
@@ -399,7 +430,7 @@ func (ch *chain) run(o chainOracle) *Violation {
 			}})
 	})
 	if ci.Panic == nil {
-		ci.After = ch.view()
+		ci.After = ch.viewAfter()
 		set, why := applyUpdates(tmSet{}, ci.Init.Validators)
 		ch.applyErr = why
 		if set == nil {
@@ -452,6 +483,17 @@ func (ch *chain) run(o chainOracle) *Violation {
 					missed[mod(m, len(last))] = true
 				}
 			}
+			anchor := ch.anchorAddr()
+			for i, v := range last {
+				for _, k := range b.MissedKeys {
+					if v.Addr == hex.EncodeToString(ch.pool[mod(k, len(ch.pool))].Addr) {
+						missed[i] = true
+					}
+				}
+				if v.Addr == anchor {
+					missed[i] = false
+				}
+			}
 			for i, v := range last {
 				ab, _ := hex.DecodeString(v.Addr)
 				req.LastCommitInfo.Votes = append(req.LastCommitInfo.Votes, abci.VoteInfo{Validator: abci.Validator{Address: ab, Power: v.Power}, SignedLastBlock: !missed[i]})
@@ -459,10 +501,10 @@ func (ch *chain) run(o chainOracle) *Violation {
 		}
 		req.ByzantineValidators = ch.buildEvidence(b, h)
 		ci := &callInfo{Kind: "begin", Height: h, Time: ch.now, BlockIx: bi, Req: req}
-		ci.Before = ch.view()
+		ci.Before = ch.takeBefore()
 		ci.Panic = safeCall(func() { ci.Begin = ch.app.BeginBlock(req) })
 		if ci.Panic == nil {
-			ci.After = ch.view()
+			ci.After = ch.viewAfter()
 		}
 		if v := o.after(ch, ci); v != nil || ci.Panic != nil {
 			return v
@@ -472,7 +514,7 @@ func (ch *chain) run(o chainOracle) *Violation {
 			tx := &b.Txs[ti]
 			bt := ch.buildTx(tx)
 			ci := &callInfo{Height: h, Time: ch.now, BlockIx: bi, TxIx: ti, Tx: tx, TxBytes: bt.Bytes, Built: bt}
-			ci.Before = ch.view()
+			ci.Before = ch.takeBefore()
 			mode := tx.Mode
 			if ch.deliverAll {
 				mode = ""
@@ -490,7 +532,7 @@ func (ch *chain) run(o chainOracle) *Violation {
 				ch.blockTxs = append(ch.blockTxs, bt.Bytes)
 			}
 			if ci.Panic == nil {
-				ci.After = ch.view()
+				ci.After = ch.viewAfter()
 			}
 			ci.Awards, ci.Burns = ch.app.awardLog, ch.app.burnLog
 			if os.Getenv("VERIF_TRACE") != "" {
@@ -506,10 +548,10 @@ func (ch *chain) run(o chainOracle) *Violation {
 			}
 			q := &b.Queries[qi]
 			ci := &callInfo{Kind: "query", Height: h, Time: ch.now, BlockIx: bi, TxIx: qi}
-			ci.Before = ch.view()
+			ci.Before = ch.takeBefore()
 			ci.Panic = safeCall(func() { ci.Query = ch.app.Query(abci.RequestQuery{Path: q.Path, Data: unhex(q.Data), Height: q.H}) })
 			if ci.Panic == nil {
-				ci.After = ch.view()
+				ci.After = ch.viewAfter()
 			}
 			if v := o.after(ch, ci); v != nil || ci.Panic != nil {
 				return v
@@ -517,10 +559,10 @@ func (ch *chain) run(o chainOracle) *Violation {
 		}
 		// EndBlock
 		ci = &callInfo{Kind: "end", Height: h, Time: ch.now, BlockIx: bi}
-		ci.Before = ch.view()
+		ci.Before = ch.takeBefore()
 		ci.Panic = safeCall(func() { ci.End = ch.app.EndBlock(abci.RequestEndBlock{Height: h}) })
 		if ci.Panic == nil {
-			ci.After = ch.view()
+			ci.After = ch.viewAfter()
 			next, why := applyUpdates(ch.latestSet, ci.End.ValidatorUpdates)
 			ch.applyErr = why
 			if next != nil {
@@ -544,10 +586,10 @@ func (ch *chain) run(o chainOracle) *Violation {
 		}
 		// Commit
 		ci = &callInfo{Kind: "commit", Height: h, Time: ch.now, BlockIx: bi}
-		ci.Before = ch.view()
+		ci.Before = ch.takeBefore()
 		ci.Panic = safeCall(func() { ci.Commit = ch.app.Commit() })
 		if ci.Panic == nil {
-			ci.After = ch.view()
+			ci.After = ch.viewAfter()
 			ch.height = h
 			for _, txb := range ch.blockTxs {
 				ch.index.add(tmtypes.Tx(txb).Hash())
@@ -564,7 +606,7 @@ func (ch *chain) run(o chainOracle) *Violation {
 			}
 			ch.app = app
 			ci = &callInfo{Kind: "restart", Height: h, Time: ch.now, BlockIx: bi}
-			ci.After = ch.view()
+			ci.After = ch.viewAfter()
 			if v := o.after(ch, ci); v != nil {
 				return v
 			}
@@ -629,6 +671,20 @@ func (ch *chain) buildEvidence(b *hBlock, h int64) []abci.Evidence {
 			power = 1
 		} else {
 			v := ever[mod(e.Val, len(ever))]
+			if e.ByKey {
+				want, found := hex.EncodeToString(ch.pool[mod(e.Val, len(ch.pool))].Addr), false
+				for _, ev := range ever {
+					if ev.Addr == want {
+						v, found = ev, true
+					}
+				}
+				if !found {
+					continue
+				}
+			}
+			if v.Addr == ch.anchorAddr() {
+				continue
+			}
 			// known finding: evidence against a tombstoned validator that staked again panics BeginBlock
 			if ch.c != nil && knownSigs()[sigTombstonedEvidence] && !ch.noViews {
 				if cur == nil {
